@@ -333,5 +333,24 @@ check("spellings without a placement entry live in the current schema", c12.plac
 check("decoy contents differ from every generated target / source content", (set(c12.DECOY_T) & {r for tk in c12.ALL_TARGETS for r in c12.target_rows(tk)}, set(c12.DECOY_S) & set(c12.SRC.values())), (set(), set()))
 check("quick tier contains placements of target-only, source-only and both, by schema and by database", {c12.placement(sp) for sp in c12.QUICK_SPELLINGS} >= {("db1.s2", "db1.s1"), ("db2.s2", "db1.s1"), ("db2.s1", "db1.s1"), ("db1.s1", "db1.s2"), ("db1.s1", "db2.s2"), ("db2.s2", "db1.s2")}, True)
 
+# ---- 14. statically invalid INSERT clause; session histories -----------------------------------------------------------------------
+BAD = ("insert", None, ("k", "v"), (("s", "k"),))
+r = M.merge([(1, "a"), (2, "b")], [(1, "A", 0), (3, "C", 0)], T, S, ON, (UPD, BAD))
+check("INSERT (k, v) VALUES (s.k): the statement is rejected as a whole, whatever the data", (r["error"], r["rows"], r["static_error"]), (True, [(1, "a"), (2, "b")], 1))
+check("... the UPDATE before it would have had a row to update (so a partial effect is possible)", r["per_clause"], [1, 1])
+check("... also when no source row is unmatched", M.merge([(1, "a")], [(1, "A", 0)], T, S, ON, (UPD, BAD))["error"], True)
+check("... first_failing_clause is the INSERT", M.first_failing_clause([(1, "a")], [(1, "A", 0)], T, S, ON, (UPD, BAD), ()), 1)
+check("matching column / value counts are fine", M.static_error((UPD, INS)), None)
+check(
+    "render of the statically invalid list",
+    c12.render(c12.STATIC_FAIL_LISTS[0], "plain"),
+    "MERGE INTO t USING s ON t.k = s.k WHEN MATCHED THEN UPDATE SET v = s.v WHEN NOT MATCHED THEN INSERT (k, v) VALUES (s.k)",
+)
+check("every static-fail list is a valid clause list whose LAST clause is the offending one", all(M.valid_clause_list(c12.clauses_ast(x)) and M.static_error(c12.clauses_ast(x)) == len(x) - 1 for x in c12.STATIC_FAIL_LISTS), True)
+hq = [c for c in c12.enumerate_cases("quick") if c[0].startswith("hist:")]
+check("quick tier: every history x both cursors x {NOT NULL failure, static failure, success}", len({c[0] for c in hq}), len(c12.HISTORIES) * 2 * 2)
+check("... 10 histories", len(c12.HISTORIES), 10)
+check("the NOT NULL failing MERGE of the history cases fails in its 2nd clause after a 1st clause with work", (lambda r: (r["error"], r["per_clause"][0] > 0))(M.merge(c12.target_rows((0, 1, 2), True), c12.source_rows((0, 1, 2)), ("k", "v", "w"), S, ON, c12.clauses_ast(c12.NOTNULL_LISTS[0]), not_null=("w",))), (True, True))
+
 print(f"\n{len(FAILS)} failed" if FAILS else "\nall passed")
 sys.exit(1 if FAILS else 0)
